@@ -365,6 +365,9 @@ v('C20', 'revert-F51-memo-key-without-resolved-directory', RF, '                
 v('C05', 'revert-F49-existence-test-after-the-close', LIB, '\t/* refuse before anything is changed if the file is already there, finished or as a (left-over\n\t * or foreign) temporary file: this is not an io failure of this writer, and neither file is ours */\n\tsnprintf(finished_fullname, sizeof(finished_fullname), "%s/%s/%s", hdf5_data_object->directory, subdir, strstr(basename, "rf"));\n\tsnprintf(fullname, sizeof(fullname), "%s/%s/%s", hdf5_data_object->directory, subdir, basename);\n\tif (access(finished_fullname, F_OK) != -1 || access(fullname, F_OK) != -1)\n\t{\n\t\tsnprintf(error_str, sizeof(error_str), "The following Hdf5 file already exists: %s\\n",\n\t\t\t\taccess(finished_fullname, F_OK) != -1 ? finished_fullname : fullname);\n\t\tfprintf(stderr, "%s", error_str);\n\t\treturn(-1);\n\t}\n\n', '', rules=['C05.R5'])
 v('C04', 'revert-F48-c-gmtime', LIB, '\tdays = (int64_t)unix_second / 86400;\n', '\t{ struct tm *gm = gmtime(&unix_second); if (gm == NULL) return(-1); }\n\tdays = (int64_t)unix_second / 86400;\n', rules=['C04.R2'])
 
+v("C08", "revert-F52-channel-glob-unescaped", RF, "                    os.path.join(glob.escape(top_level_dir), list_drf.GLOB_DRFPROPFILE)\n", "                    os.path.join(top_level_dir, list_drf.GLOB_DRFPROPFILE)\n", rules=["C08.R9"])
+v("C08", "revert-F54-metadata-glob-unescaped", DM, "                                glob.escape(metadata_dir), list_drf.GLOB_DMDPROPFILE\n", "                                metadata_dir, list_drf.GLOB_DMDPROPFILE\n", rules=["C08.R9"])
+v("C02", "revert-F53-directory-length-unchecked", LIB, "\tif (strlen(directory) + 1 + 19 + 1 + 7 + 20 + 7 + 1 > BIG_HDF5_STR)\n", "\tif (0)\n", rules=["C02.R8"])
 
 def for_property(prop):
     return [x for x in V if prop in x["props"]]
